@@ -16,9 +16,25 @@ _DEFAULTS = None
 def defaults():
     global _DEFAULTS
     if _DEFAULTS is None:
-        from ampycloud import dynamic
-        _DEFAULTS = dynamic.get_default_prms()
+        # parsed independently of ampycloud.dynamic (so that nothing the code under test does to its
+        # own copy of the defaults can reach this reference)
+        import os
+        import ampycloud
+        from ruamel.yaml import YAML
+        pth = os.path.join(os.path.dirname(ampycloud.__file__), 'prms', 'ampycloud_default_prms.yml')
+        with open(pth, encoding='utf-8') as fh:
+            _DEFAULTS = YAML(typ='safe').load(fh)
     return copy.deepcopy(_DEFAULTS)
+
+
+def frame_snapshot(obj):
+    """Deep, comparison-friendly snapshot of a caller's frame (values, dtypes, index, columns, attrs)."""
+    if not isinstance(obj, pd.DataFrame):
+        return repr(obj)[:200]
+    return {'cols': [repr(c) for c in obj.columns], 'dtypes': [str(t) for t in obj.dtypes],
+            'index': [repr(i) for i in obj.index], 'index_type': type(obj.index).__name__,
+            'vals': [[repr(v) for v in obj[c].tolist()] for c in obj.columns],
+            'attrs': repr(obj.attrs), 'flags': repr(obj.flags)}
 
 
 def effective(prm):
